@@ -9,7 +9,7 @@ computes `det` / `att`) is tied by the correspondence run, not proved here.
 
 Two rows are *not* functions of the main chain in the code as written; the model mirrors the code
 and the witnesses are kept here: `epoch_number_row_not_replay` (finding F9) and
-`current_epoch_stale_after_truncate` (finding F10).
+`current_epoch_stale_after_truncate` (finding F12).
 -/
 import CkbVerif.Lemmas.StoreInv
 namespace CkbVerif.C02
@@ -245,7 +245,7 @@ theorem epoch_number_row_not_replay :
   decide
 
 open Witness in
-/-- **F10.** `truncate` to block 2 (epoch 0), then block 7 on top of the cut-off block 4: blocks 3, 4
+/-- **F12.** `truncate` to block 2 (epoch 0), then block 7 on top of the cut-off block 4: blocks 3, 4
 are re-attached across the epoch boundary with nothing detached and a tip that is not an epoch head,
 so the current-epoch row stays at epoch 0 while the replay of `g,1,2,3,4,7` has epoch 1.  (Every
 other column equals the replay; this is exactly the case excluded by `hcur` in `reorg_eq_replay`.) -/
